@@ -27,8 +27,19 @@ def res_and_w(op_result):
     """'OK:... w=hex' -> (result, bytes)"""
     if " w=" in op_result:
         r, w = op_result.rsplit(" w=", 1)
+        w = w.split(" q=")[0]
         return r, mb.unhex(w)
     return op_result, b""
+
+
+def unread(op_result):
+    """number of read events still queued in the transport after the op (None if not reported)"""
+    if " q=" in op_result:
+        try:
+            return int(op_result.rsplit(" q=", 1)[1])
+        except ValueError:
+            return None
+    return None
 
 
 def exc_pdu(fc, code):
